@@ -41,6 +41,8 @@ use serde::{Deserialize, Serialize};
 // ---------------------------------------------------------------------------------------------
 // custom service variant: local building blocks + select() based reactor
 
+mod vclock;
+
 mod select_variant {
     use core::fmt::Debug;
     use iceoryx2::prelude::ZeroCopySend;
@@ -89,6 +91,9 @@ enum Mode {
     Expiry,
     /// the wait set is pre-filled with long intervals up to `capacity - headroom`
     Capacity { headroom: usize },
+    /// expiry under a virtual clock (vclock.rs): deadlines of 2 units, intervals of 3 (slot 0) and 2
+    /// (further slots) units, `Advance` moves the frozen clock by one unit (1 s); all histories
+    Virtual,
 }
 
 #[derive(Clone, Debug, Serialize, Deserialize)]
@@ -142,6 +147,8 @@ enum Op {
     ProcessNotifying(usize),
     /// Expiry mode: sleep 5 ms, then process
     SleepProcess,
+    /// Virtual mode: the clock advances by one unit
+    Advance,
     /// drop the (unattached) listener l and create a new one on the same service: the new listener
     /// usually gets the file descriptor number of the old one
     RecreateListener(usize),
@@ -163,6 +170,20 @@ struct Model {
     /// attachments that are not in `slots` (Capacity mode filler)
     filler: usize,
     capacity: usize,
+    // -- Virtual mode (units of the virtual clock)
+    /// slot -> (start of the period grid, period) of a live deadline / interval attachment
+    timers: Vec<Option<(u64, u64)>>,
+    vnow: u64,
+    /// time of the most recent processing call that looked at the deadlines
+    prev: u64,
+}
+
+const UNIT_NS: u64 = 1_000_000_000;
+
+/// a period boundary of the grid `start + k * period` (k >= 1) lies in (max(prev, start), now]
+fn boundary_passed(start: u64, period: u64, prev: u64, now: u64) -> bool {
+    let from = prev.max(start);
+    (1..).map(|k| start + k * period).take_while(|b| *b <= now).any(|b| b > from)
 }
 
 impl Model {
@@ -223,6 +244,11 @@ where
     S::Reactor: 'static,
 {
     fn new(cfg: &Cfg) -> Result<Self, Fail> {
+        if cfg.mode == Mode::Virtual {
+            vclock::enable();
+        } else {
+            vclock::disable();
+        }
         let n = COUNTER.fetch_add(1, Ordering::Relaxed);
         let pid = std::process::id();
         let root = format!("/verif/.run/h_waitset-{pid}-{n}");
@@ -278,6 +304,7 @@ where
         let slots = w.n_listeners + cfg.intervals;
         w.guards = (0..slots).map(|_| None).collect();
         w.model.slots = vec![None; slots];
+        w.model.timers = vec![None; slots];
         w.model.pending = vec![BTreeMap::new(); w.n_listeners];
         w.model.capacity = w.ws().capacity();
         if let Mode::Capacity { headroom } = cfg.mode {
@@ -316,6 +343,25 @@ where
         }
     }
 
+    /// period of the attachment in `slot` (units of the virtual clock) in Virtual mode
+    fn vperiod(&self, slot: usize) -> u64 {
+        if slot < self.n_listeners {
+            2
+        } else if slot == self.n_listeners {
+            3
+        } else {
+            2
+        }
+    }
+
+    fn period_of(&self, slot: usize) -> Duration {
+        if self.cfg.mode == Mode::Virtual {
+            Duration::from_nanos(self.vperiod(slot) * UNIT_NS)
+        } else {
+            self.long_or_short()
+        }
+    }
+
     fn check_len(&self, site: &str) -> Result<(), Fail> {
         let ws = self.ws();
         ensure!(ws.len() == self.model.len(), "c20-len", site, "WaitSet::len() = {} but {} attachments are alive", ws.len(), self.model.len());
@@ -340,12 +386,15 @@ where
         let listener = self.listener(l);
         let real = match kind {
             Kind::Notification => ws.attach_notification(listener),
-            _ => ws.attach_deadline(listener, self.long_or_short()),
+            _ => ws.attach_deadline(listener, self.period_of(l)),
         };
         match (real, &expected) {
             (Ok(g), Ok(())) => {
                 self.guards[l] = Some(g);
                 self.model.slots[l] = Some(kind);
+                if self.cfg.mode == Mode::Virtual && kind == Kind::Deadline {
+                    self.model.timers[l] = Some((self.model.vnow, self.vperiod(l)));
+                }
             }
             (Err(e), Err(x)) if e == *x => {}
             (real, _) => {
@@ -366,11 +415,14 @@ where
         let slot = self.n_listeners + i;
         let expected: Result<(), WaitSetAttachmentError> =
             if self.model.len() >= self.model.capacity { Err(WaitSetAttachmentError::InsufficientCapacity) } else { Ok(()) };
-        let real = self.ws().attach_interval(self.long_or_short());
+        let real = self.ws().attach_interval(self.period_of(slot));
         match (real, &expected) {
             (Ok(g), Ok(())) => {
                 self.guards[slot] = Some(g);
                 self.model.slots[slot] = Some(Kind::Interval);
+                if self.cfg.mode == Mode::Virtual {
+                    self.model.timers[slot] = Some((self.model.vnow, self.vperiod(slot)));
+                }
             }
             (Err(e), Err(x)) if e == *x => {}
             (real, _) => {
@@ -409,6 +461,24 @@ where
     fn process(&mut self, drain: bool, notify_in_cb: Option<usize>, site: &str) -> Result<(), Fail> {
         let expiry = self.cfg.mode == Mode::Expiry;
         let ready_at_start = self.model.ready(self.n_listeners);
+        // Virtual mode: what has to be reported as expired by this call. A deadline attachment whose
+        // listener has an event pending starts its period anew with this call (the event arrived in
+        // time), every other deadline / interval is reported iff one of its period boundaries
+        // passed since the previous processing call.
+        let mut expected_expired: BTreeSet<usize> = BTreeSet::new();
+        if self.cfg.mode == Mode::Virtual && self.model.len() > 0 {
+            let (now, prev) = (self.model.vnow, self.model.prev);
+            for slot in 0..self.model.slots.len() {
+                if let Some((start, period)) = self.model.timers[slot] {
+                    if slot < self.n_listeners && ready_at_start.contains(&slot) {
+                        self.model.timers[slot] = Some((now, period));
+                    } else if boundary_passed(start, period, prev, now) {
+                        expected_expired.insert(slot);
+                    }
+                }
+            }
+            self.model.prev = now;
+        }
         let ws = self.ws();
         let n_listeners = self.n_listeners;
 
@@ -552,7 +622,42 @@ where
         // -- expiries
         let ticks: Vec<usize> = reported.iter().filter(|r| r.0 >= n_listeners).map(|r| r.0).collect();
         let missed: Vec<usize> = reported.iter().filter(|r| r.1).map(|r| r.0).collect();
-        if !expiry {
+        if self.cfg.mode == Mode::Virtual {
+            ensure!(vclock::queries() > 0 || self.model.timers.iter().all(|t| t.is_none()), "harness", "virtual clock", "the code under test did not read the virtual clock");
+            let mut got: Vec<usize> = ticks.iter().chain(missed.iter()).copied().collect();
+            got.sort();
+            let got_set: BTreeSet<usize> = got.iter().copied().collect();
+            ensure!(got.len() == got_set.len(), "c20-duplicate-callback", site, "expiry reported more than once in one call: ticks {:?}, missed deadlines {:?}", ticks, missed);
+            for slot in &expected_expired {
+                ensure!(
+                    got_set.contains(slot),
+                    "c20-missing-callback",
+                    site,
+                    "the {} in slot {} (timer {:?}) expired at virtual time {} but was not reported (ticks {:?}, missed deadlines {:?})",
+                    if *slot < n_listeners { "deadline" } else { "interval" },
+                    slot,
+                    self.model.timers[*slot],
+                    self.model.vnow,
+                    ticks,
+                    missed
+                );
+            }
+            for slot in &got_set {
+                ensure!(
+                    expected_expired.contains(slot),
+                    "c20-unexpected-callback",
+                    site,
+                    "slot {} (timer {:?}) reported as expired at virtual time {} although no period boundary passed since the previous call (expected {:?})",
+                    slot,
+                    self.model.timers[*slot],
+                    self.model.vnow,
+                    expected_expired
+                );
+            }
+            for slot in &missed {
+                ensure!(self.model.slots[*slot] == Some(Kind::Deadline), "c20-unexpected-callback", site, "missed deadline reported for slot {} which is {:?}", slot, self.model.slots[*slot]);
+            }
+        } else if !expiry {
             ensure!(ticks.is_empty() && missed.is_empty(), "c20-unexpected-callback", site, "1000 s interval / deadline reported as expired: ticks {:?}, missed deadlines {:?}", ticks, missed);
         } else {
             for slot in 0..self.model.slots.len() {
@@ -582,6 +687,9 @@ where
     }
 
     fn teardown(&mut self) {
+        if self.cfg.mode == Mode::Virtual {
+            vclock::disable();
+        }
         for g in self.guards.iter_mut() {
             drop(g.take());
         }
@@ -648,6 +756,9 @@ fn enabled_ops(c: &Cfg, m: &Model, n_listeners: usize) -> Vec<Op> {
     if expiry {
         v.push(Op::SleepProcess);
         return v;
+    }
+    if c.mode == Mode::Virtual {
+        v.push(Op::Advance);
     }
     for s in 0..c.layout.len() {
         v.push(Op::Notify(s));
@@ -737,6 +848,12 @@ where
                 ensure!(self.guards[*k].is_some(), "harness", "DropGuard", "slot {} is empty", k);
                 drop(self.guards[*k].take());
                 self.model.slots[*k] = None;
+                self.model.timers[*k] = None;
+            }
+            Op::Advance => {
+                ensure!(self.cfg.mode == Mode::Virtual, "harness", "Advance", "not in Virtual mode");
+                vclock::advance(UNIT_NS);
+                self.model.vnow += 1;
             }
             Op::Notify(s) => self.notify(*s, 1 + *s)?,
             Op::Drain(l) => self.drain(*l, "try_wait")?,
@@ -765,6 +882,7 @@ where
         for k in 0..self.guards.len() {
             drop(self.guards[k].take());
             self.model.slots[k] = None;
+            self.model.timers[k] = None;
         }
         while let Some(g) = self.filler.pop() {
             drop(g);
@@ -781,7 +899,10 @@ where
     }
 
     fn key(&self) -> u64 {
-        seqx::hash_of(&self.model)
+        // times relative to now: what the future behaviour depends on
+        let m = &self.model;
+        let rel: Vec<Option<(u64, u64)>> = m.timers.iter().map(|t| t.map(|(s, p)| (m.vnow - s, p))).collect();
+        seqx::hash_of(&(&m.slots, &m.pending, m.filler, rel, m.vnow - m.prev.min(m.vnow)))
     }
 
     fn nontrivial(&self) -> bool {
@@ -801,6 +922,7 @@ fn op_name(op: &Op) -> &'static str {
         Op::ProcessNoDrain => "process without draining",
         Op::ProcessNotifying(_) => "process with notify inside the callback",
         Op::SleepProcess => "process after expiry",
+        Op::Advance => "advancing the clock by one unit",
         Op::RecreateListener(_) => "listener re-creation",
     }
 }
@@ -842,7 +964,7 @@ impl Harness for H {
         "every sequence (up to the tree depth) of attach_notification / attach_deadline / attach_interval (incl. on an attached listener and on a full wait set), \
          guard drop, notify per service, listener drain, re-creation of unattached listeners and zero-timeout wait_and_process_once_with_timeout (draining, non-draining, notifying inside the callback) \
          on a real WaitSet with 1..4 listeners over 1..2 event services (local = epoll + socket pair, ipc = epoll + unix datagram socket, custom variant = select reactor); \
-         the larger configurations are distributed over one configuration per first operation (Cfg::start, applied with all checks in new_sys), so their history depth is tree depth + 1 (quick: 6 local / 4 ipc, thorough: up to 8); after every step a non-consuming processing call is compared with the model; a distinct state = (kind per attachment slot, pending event ids and counts per listener)"
+         the larger configurations are distributed over one configuration per first operation (Cfg::start, applied with all checks in new_sys), so their history depth is tree depth + 1 (quick: 6 local / 4 ipc, thorough: up to 8); after every step a non-consuming processing call is compared with the model; expiry of deadlines (2 units) and intervals (3 / 2 units) under a virtual clock that only the operation Advance (one unit) moves: a deadline / interval is reported by a processing call iff one of its period boundaries passed since the previous processing call, a deadline whose listener has an event pending starts anew; a distinct state = (kind per attachment slot, pending event ids and counts per listener, age and period of every timer, time since the previous processing call)"
             .into()
     }
 
@@ -899,16 +1021,23 @@ impl Harness for H {
         for variant in [Variant::Local, Variant::LocalSelect] {
             v.push((Cfg { mode: Mode::Expiry, deadline: true, intervals: 2, notification: false, ..cfg(variant, &[1]) }, plan(if q { 4 } else { 5 }, 5)));
         }
+        // --- expiry under the virtual clock: all histories
+        for variant in [Variant::Local, Variant::LocalSelect] {
+            v.push((Cfg { mode: Mode::Virtual, deadline: true, intervals: 1, notification: false, ..cfg(variant, &[1]) }, plan(if q { 6 } else { 9 }, if q { 4 } else { 12 })));
+            v.push((Cfg { mode: Mode::Virtual, deadline: true, intervals: 2, twice_other_kind: true, ..cfg(variant, &[1]) }, plan(if q { 5 } else { 8 }, if q { 6 } else { 12 })));
+            v.push((Cfg { mode: Mode::Virtual, deadline: true, intervals: 1, notification: false, ..cfg(variant, &[2]) }, plan(if q { 5 } else { 7 }, if q { 6 } else { 12 })));
+        }
+        v.push((Cfg { mode: Mode::Virtual, deadline: true, intervals: 1, notification: false, ..cfg(Variant::Ipc, &[1]) }, plan(if q { 4 } else { 6 }, 8)));
         // one configuration per first operation (see `Cfg::start`); the depth stays the same: the
         // start operation counts as the first step
         let mut expanded: Vec<(Cfg, Plan)> = Vec::new();
         for (c, p) in v {
-            if c.mode != Mode::Exhaustive || c.variant == Variant::Ipc || p.tree_depth < 5 {
+            if !matches!(c.mode, Mode::Exhaustive | Mode::Virtual) || c.variant == Variant::Ipc || p.tree_depth < 5 {
                 expanded.push((c, p));
                 continue;
             }
             let n: usize = c.layout.iter().sum();
-            let m = Model { slots: vec![None; n + c.intervals], pending: vec![BTreeMap::new(); n], filler: 0, capacity: usize::MAX };
+            let m = Model { slots: vec![None; n + c.intervals], pending: vec![BTreeMap::new(); n], filler: 0, capacity: usize::MAX, ..Model::default() };
             for op in enabled_ops(&c, &m, n) {
                 expanded.push((Cfg { start: vec![op], ..c.clone() }, Plan { tree_depth: p.tree_depth - 1, split: (p.split / 2).max(1), ..p.clone() }));
             }
